@@ -38,7 +38,7 @@ PROBES = ["auto_reconnect_after_stream_error", "no_reconnect_after_conflict", "n
           "app_disconnect_while_connecting", "connected_before_previous_disconnected"]
 SHRINK = ["conns"]
 ENDS = ["stream_error:conflict", "stream_error:ack", "stream_error:xml-not-well-formed", "peer_close", "rst", "app_disconnect",
-        "ping_never", "ping_late", "ping_ok_then_close", "app_disconnect_early"]
+        "ping_never", "ping_late", "ping_ok_then_close", "app_disconnect_early", "app_disconnect_connecting"]
 _S = {}
 
 
@@ -136,8 +136,13 @@ class W(fullwire.FullWorld):
         self.expected_more = True
         self.app_reconnected = set()
         self.client_pings = []
+        self.connecting_disc_requests = 0
 
     def violate(self, sig, detail):
+        if self.dispatcher == "socket" and self.connecting_disc_requests:
+            # one specific history class: the (non-default) socket dispatcher received a disconnect request while its
+            # blocking connect() was still in progress — everything that follows in such a run is attributed to it
+            sig = "socket-dispatcher-disconnect-while-connecting/" + sig.split("/")[0]
         super(W, self).violate("C16/" + sig, detail)
 
     def spec(self, attempt):
@@ -307,8 +312,16 @@ class W(fullwire.FullWorld):
                 break
             conn = self.net.conns[a]
             sp = self.spec(a)
-            if sp is not None and sp["connect"] == "ok" and sp["end"] in ("app_disconnect", "app_disconnect_early"):
-                if sp["end"] == "app_disconnect_early":
+            if sp is not None and sp["connect"] == "ok" and sp["end"] in ("app_disconnect", "app_disconnect_early",
+                                                                         "app_disconnect_connecting"):
+                if sp["end"] == "app_disconnect_connecting":
+                    # immediately: the connect has been requested but is not established yet
+                    self.probe("app_disconnect_while_connecting")
+                    req_time = k.now
+                    self.k.note("app disconnect request while connecting, attempt", a)
+                    if self.netlayer.state == S["YowNetworkLayer"].STATE_CONNECTING:
+                        self.connecting_disc_requests += 1
+                elif sp["end"] == "app_disconnect_early":
                     self.wait_until(lambda: self.conn_for(a) is not None or conn.client_closed, 20)
                     self.probe("app_disconnect_while_connecting")
                 else:
@@ -382,7 +395,10 @@ class W(fullwire.FullWorld):
     def judge(self):
         attempts = self.net.connect_count
         refused = sum(1 for i in range(min(attempts, len(self.script))) if self.script[i]["connect"] != "ok")
+        base_refused = refused
         for name, evs in (("probe", [e[1] for e in self.probe_events]), ("application", [e[1] for e in self.app_events])):
+            # attempts that never came up (refused, or cut by a disconnect request while being established)
+            refused = max(base_refused, attempts - evs.count("connected"))
             U = D = 0
             first_inversion = False
             for e in evs:
